@@ -954,6 +954,7 @@ func (r *Ring) ShuffleShard(identifier string, size int) ReadRing {
 	} else {
 		result = r.shuffleShard(identifier, size, 0, time.Now())
 	}
+	verifYield("ring.ShuffleShard.computed")
 	// Only cache subring if it is different from this ring, to avoid deadlocks in getCachedShuffledSubring,
 	// when we update the cached ring.
 	if result != r {
@@ -985,6 +986,7 @@ func (r *Ring) ShuffleShardWithLookback(identifier string, size int, lookbackPer
 		result = r.shuffleShard(identifier, size, lookbackPeriod, now)
 	}
 
+	verifYield("ring.ShuffleShardWithLookback.computed")
 	if result != r {
 		r.setCachedShuffledSubringWithLookback(identifier, size, lookbackPeriod, now, result)
 	}
